@@ -45,7 +45,9 @@ def run(pid, tier, seed, replay=None):
         ck.cov["evaluations"] = summ["calls"] + summ["numeric_checks"]
         ck.cov["distinct_nontrivial"] = summ["calls"]
         ck.cov["rule"] = "every permutation of 1..5 dimensions and sampled 6-D permutations, each followed by its inverse, plus malformed arguments per dimension count (wrong length, duplicates, out of range incl. 2^16..2^63 offsets, ascending malformed ones; C++ method and C wrapper)"
-        ck.sample({k: rows[3][k] for k in ("op", "perm", "ok")})
+        first = next((r for r in rows if r.get("op") == "permute"), None)
+        if first:
+            ck.sample({k: first[k] for k in ("op", "perm", "ok")})
         return ck.finish(exhaustive=True)
     finally:
         if not os.environ.get("VERIF_KEEP"):
